@@ -481,6 +481,7 @@ Proof.
     intros id cap off bs Hx. eapply enc_unsubscribe_head. exact Hx.
   - exact Hq.
   - exact Hq.
+  - exact Hq.
   - apply (Q_frame s); [| | |exact Hq]; cbn [set_ob s_ob s_rt]; [apply U_arm_replay; apply I|reflexivity|reflexivity].
   - apply (Q_frame s); [| | |exact Hq]; cbn [set_ob s_ob s_rt]; [apply U_compact; apply I|reflexivity|reflexivity].
   - now apply Q_connack.
